@@ -29,16 +29,19 @@ RAW_BODIES = [
 # generator (C12)
 
 
-def gen_c12(rng):
+def gen_c12(rng, big=False):
     kind = rng.choice(["plain", "plain", "pooled", "pooled-user", "pooled-user"])
     sv = {"kind": kind, "family": rng.choice(["tcp", "tcp", "unix"]), "version": rng.choice([2.0, 2.0, 2.0, 1.0])}
     if kind == "pooled-user":
         mx = rng.choice([1, 1, 2, 3, 4])
         sv["pool"] = [mx, rng.randrange(0, mx + 1)]
         sv["pool_timeout"] = rng.choice([0.5, 2.0, 4.0])
-    if rng.random() < 0.3:
+    k = rng.random()
+    if k < 0.3:
         mx = rng.choice([1, 2, 3])
         sv["npool"] = [mx, rng.randrange(0, mx + 1)]
+    elif k < 0.4 and kind == "pooled-user":
+        sv["npool"] = "shared"
     if rng.random() < 0.15:
         sv["custom_dispatch"] = True
     life = rng.choices(["serve", "never-served", "shutdown-inflight", "handle-loop"], [70, 8, 14, 8])[0]
@@ -48,12 +51,12 @@ def gen_c12(rng):
     if life == "shutdown-inflight":
         methods["gate"] = {"kind": "gate", "gate": "g"}
     names = sorted(methods) + ["nope"]
-    nclients = rng.randint(1, 4) if life != "never-served" else 0
+    nclients = rng.randint(1, 5 if big else 4) if life != "never-served" else 0
     clients = []
     nreq = 0
     for ci in range(nclients):
         ops = []
-        for oi in range(rng.randint(1, 4)):
+        for oi in range(rng.randint(1, 6 if big else 4)):
             tok = "c%do%d" % (ci, oi)
             k = rng.random()
             if k < 0.45:
@@ -77,9 +80,11 @@ def gen_c12(rng):
             elif k < 0.9:
                 ops.append(["raw", rng.choice(RAW_BODIES).replace("RAWTOKEN", tok)])
                 nreq += 1
-            elif k < 0.94 and life != "handle-loop":
+            elif k < 0.93 and life != "handle-loop":
                 body = '{"jsonrpc": "2.0", "method": "echo", "params": ["%s"], "id": 5}' % tok
                 ops.append(["rawtrunc", body, rng.randrange(0, len(body))])
+            elif k < 0.96 and life != "handle-loop":
+                ops.append(["abort", rng.choice(["connect-close", "half-headers", "no-read", "garbage"]), tok])
             else:
                 ops.append(["sleep", rng.choice([0.25, 0.5, 1.0])])
         clients.append({"version": rng.choice([None, None, 2.0, 1.0]), "history": False, "ops": ops})
@@ -202,6 +207,8 @@ def op_tokens(op):
     elif op[0] in ("raw", "rawtrunc"):
         for t in TOKEN.findall(op[1]):
             out[t] = ("call", "echo")
+    elif op[0] == "abort":
+        out[op[2]] = ("call", "echo")
     return out
 
 
@@ -251,7 +258,7 @@ def analyse_c12(program, s, run, verdict):
     # client level: own tokens only
     for key in sorted(h.ops):
         o = h.ops[key]
-        if o["ret"] == INF or o["kind"] in ("sleep", "rawtrunc"):
+        if o["ret"] == INF or o["kind"] in ("sleep", "rawtrunc", "abort"):
             continue
         mine = op_tokens(o["op"])
         seen = set(TOKEN.findall(json.dumps(o["out"])))
@@ -277,7 +284,7 @@ def analyse_c12(program, s, run, verdict):
             if n > 1:
                 v.append(Violation("C12", "executions", "duplicated", "request %s executed %d times" % (tok, n)))
             registered = m in methods
-            if o["op"][0] in ("raw", "rawtrunc"):
+            if o["op"][0] in ("raw", "rawtrunc", "abort"):
                 continue
             if life in ("serve", "handle-loop") and registered and o["ret"] != INF and tok in delivered and n == 0:
                 v.append(Violation("C12", "executions", "lost", "request %s (%s %s) was answered/accepted but never executed" % (tok, kind, m)))
@@ -289,10 +296,13 @@ def analyse_c12(program, s, run, verdict):
 class C12Scenario(object):
     name = "system-c12"
     props = ("C12",)
-    args = None
+
+    def __init__(self, tier="quick"):
+        self.tier = tier
+        self.args = {"tier": tier}
 
     def generate(self, rng):
-        return gen_c12(rng)
+        return gen_c12(rng, self.tier == "thorough")
 
     def run(self, program, decider, chooser=None):
         s, run, verdict = sysim.execute(program, decider, chooser)
@@ -323,6 +333,10 @@ class C12Scenario(object):
             p["invalid_body_sent"] = 1
         if any(o["kind"] == "rawtrunc" for o in h.ops.values()):
             p["client_died_mid_body"] = 1
+        if any(o["kind"] == "abort" for o in h.ops.values()):
+            p["client_aborted_connection"] = 1
+        if program["server"].get("npool") == "shared":
+            p["shared_request_and_notification_pool"] = 1
         stats = {"steps": s.step, "switches": s.nswitch, "simtime": s.now, "verdict": verdict.kind if verdict else None,
                  "faults": dict(s.faults), "probes": p,
                  "states": set([(program["server"]["kind"], life, min(mx, 3), len(program["clients"]))]),
